@@ -598,7 +598,10 @@ impl<'a, T: Send> Future for RecvBatchFuture<'a, T> {
             .waiting_async_receivers
             .retain(|w| w.state != state_ptr);
           drop(guard);
-          return Poll::Ready(Err(RecvError::Disconnected));
+          // The last sender closed while this future was pending. Values sent
+          // before the close may still be buffered: fall through to a normal
+          // attempt, which drains them and reports Disconnected only when the
+          // buffer is empty.
         }
       }
     }
@@ -692,7 +695,10 @@ impl<'a, T: Send> Future for RecvBatchMutFuture<'a, T> {
             .waiting_async_receivers
             .retain(|w| w.state != state_ptr);
           drop(guard);
-          return Poll::Ready(Err(RecvError::Disconnected));
+          // The last sender closed while this future was pending. Values sent
+          // before the close may still be buffered: fall through to a normal
+          // attempt, which drains them and reports Disconnected only when the
+          // buffer is empty.
         }
       }
     }
@@ -778,7 +784,10 @@ impl<'a, T: Send> Future for RecvFuture<'a, T> {
             .waiting_async_receivers
             .retain(|w| w.state != state_ptr);
           drop(guard);
-          return Poll::Ready(Err(RecvError::Disconnected));
+          // The last sender closed while this future was pending. Values sent
+          // before the close may still be buffered: fall through to a normal
+          // attempt, which drains them and reports Disconnected only when the
+          // buffer is empty.
         }
       }
     }
